@@ -79,6 +79,24 @@ impl TinyLFU {
     }
 }
 
+#[cfg(cached_verif)]
+impl TinyLFU {
+    pub(crate) fn verif_state(&self) -> crate::cache::verif::Sketch {
+        let (seeds, total_counters, rows) = self.key_access_frequency.verif_state();
+        crate::cache::verif::Sketch {
+            seeds,
+            total_counters,
+            rows,
+            total_increments: self.total_increments,
+            reset_counters_at: self.reset_counters_at,
+        }
+    }
+
+    pub(crate) fn verif_door_keeper_has(&self, key_hash: KeyHash) -> bool {
+        self.door_keeper.has(&key_hash)
+    }
+}
+
 #[cfg(test)]
 mod tests {
     use crate::cache::lfu::tiny_lfu::TinyLFU;
